@@ -51,7 +51,13 @@ func init() {
 		},
 		Rule:   "as C01; every commit callback's (block, proof) is re-validated with strict ValidateBlockConsensus on another correct node and by the reference certificate predicate; non-trivial = a commit was judged in a case where adversarial messages were delivered",
 		Floors: map[string]int{"C03 commits validated on a peer": 1000},
-		Judged: []string{"C03 commits validated on a peer"}})
+		Judged: []string{"C03 commits validated on a peer"},
+		Extra: func(run *harness.Run) ([]harness.Finding, map[string]interface{}, []string) {
+			// real runtime: the committed pairs of a live network validated (strict) through the API of running nodes, on the
+			// consumer's goroutine, while those nodes take part in consensus
+			fs, ev, inc := rtPart(run, "stress", 24, 800, map[string]int{"C03 committed pairs validated through the API of a running node": 500})
+			return fs, map[string]interface{}{"rt_stress": ev}, inc
+		}})
 	reg(&sim.SimCheck{Prop: "C04", Workload: "c04", Profile: advProfile(merge(map[string]int{"barePP": 5}, map[string]int{"badBlock": 25, "twistedNV": 20, "support": 25, "forgedNV": 8, "equivocate": 10, "crossInstance": 14, "reblock": 30, "vcGames": 28}), 500, 2),
 		QuickCases: 8000, ThoroughCases: 120000,
 		NonTrivial: func(r *sim.Result) bool { return r.Stats["C04 commits judged"] > 0 && r.Stats["adv badBlock"] > 0 },
